@@ -202,7 +202,7 @@ func run(r *ev.Run) {
 
 	mark("fixed_cases")
 	// 2. seeded sequences, each executed on every configuration
-	nSeq := r.Scale(400, 20000)
+	nSeq := r.Scale(1200, 20000)
 	if v := os.Getenv("C15_NSEQ"); v != "" { // reduced-size trial runs only
 		fmt.Sscan(v, &nSeq)
 	}
@@ -260,7 +260,7 @@ func run(r *ev.Run) {
 
 	mark("shrinking")
 	r.Extra("wall_seconds_per_phase(diagnostic)", phase)
-	r.MinDistinct = r.Scale(2000, 80000)
+	r.MinDistinct = r.Scale(6000, 80000)
 	if os.Getenv("C15_NSEQ") != "" {
 		r.MinDistinct = 2
 	}
